@@ -188,6 +188,8 @@ def run(ctx):
             res.ok("X4", f"{q}:pure", "no write to any parameter (E3 summary)")
     res.assumptions += ["integer indices; L >= 3 for every popped range (C01-R1b facts re-checked here as X7)"]
     res.not_decided += ["tie-breaking among equal priorities", "'beyond rounding noise' clause"]
+    from .common import hidden_state as _hidden_state
+    _hidden_state(rc, "X9", ['rdp.rdp_fixed'], "fixed-size RDP")
     res.require_instances("C05 obligations", len(res.obligations), 40)
 
 
